@@ -232,53 +232,24 @@ Theorem alias_names_sound :
   /\ forallb (fun n => alias_exists n) error_codes = true.
 Proof. repeat split; vm_compute; reflexivity. Qed.
 
-(* ---------- the import namespace of the endpoints module (finding F06e) ---------- *)
-Theorem partial_ns : forall k s ms o st, status_ok st -> guard_F06e k s ms o st = true -> C06_spec (call_ns k s ms o st) st.
+(* ---------- the import namespace of the endpoints module (finding F06e, fixed) ---------- *)
+Lemma resolves_ref : forall all ms c, incl ms all -> resolves ms (exception_ref all c) = true.
 Proof.
-  intros k s ms o st Hst G. pose proof (full k s o st Hst) as F. unfold call_ns, guard_F06e in *.
-  destruct (transport k st); [exact F|].
-  destruct F as (c & E & Hc). rewrite E in *. apply negb_true_iff in G. rewrite G. exists c. auto.
+  intros all ms c Hincl. unfold exception_ref. destruct (mem_str (cls_name c) all) eqn:E; [reflexivity|].
+  cbn [resolves]. apply negb_true_iff. destruct (mem_str (cls_name c) ms) eqn:M; [|reflexivity].
+  apply mem_str_In in M. apply Hincl in M. apply mem_str_In in M. congruence.
 Qed.
-Theorem guard_ns_exact : forall k s ms o st, status_ok st -> C06_spec (call_ns k s ms o st) st -> guard_F06e k s ms o st = true.
+(* C06_full with the namespace: whatever model classes the module imports (they are model classes of the spec) *)
+Theorem full_ns : forall k s all ms o st, incl ms all -> status_ok st -> C06_spec (call_ns k s all ms o st) st.
 Proof.
-  intros k s ms o st Hst (c & E & _). unfold call_ns, guard_F06e in *.
-  destruct (transport k st); [reflexivity|].
-  destruct (call k s o st) as [|c' st' r| |]; try reflexivity.
-  destruct (mem_str (cls_name c') ms); [discriminate | reflexivity].
+  intros k s all ms o st Hincl Hst. pose proof (full k s o st Hst) as F. unfold call_ns.
+  destruct (transport k st); [exact F|]. destruct F as (c & E & Hc). rewrite E. rewrite (resolves_ref all ms c Hincl).
+  exists c. auto.
 Qed.
-(* the spec-level side condition implies the guard for every operation of the package and every status *)
-Theorem no_shadowing_guard : forall k s ms o st, In o s -> no_shadowing s ms = true -> guard_F06e k s ms o st = true.
-Proof.
-  intros k s ms o st Hin H. unfold guard_F06e. destruct (transport k st) eqn:T; [reflexivity|].
-  unfold call. rewrite imports_always, T. cbn [negb].
-  - unfold no_shadowing in H. apply negb_true_iff in H.
-    assert (Hn : forall n, In n (raisable_names s) -> mem_str n ms = false).
-    { intros n Hn. destruct (mem_str n ms) eqn:E; [|reflexivity].
-      assert (existsb (fun n => mem_str n ms) (raisable_names s) = true); [|congruence]. apply existsb_exists. eauto. }
-    unfold dispatch. destruct (find_case st (cases o)) as [[m a]|] eqn:E.
-    + apply find_case_Some in E. destruct E as [-> Hc]. destruct a; try reflexivity.
-      * apply negb_true_iff. apply Hn. unfold raisable_names. right. right. apply in_or_app. right.
-        apply in_flat_map. exists o. split; [exact Hin|]. apply in_flat_map. exists (st, CAlias m).
-        split; [exact Hc | left; reflexivity].
-      * apply negb_true_iff. apply Hn. right. left. reflexivity.
-    + destruct (has_wildcard o && in_range wildcard_lo wildcard_hi st); [reflexivity|].
-      unfold fallback. destruct (default_returns o && in_range default_success_lo default_success_hi st); [reflexivity|].
-      apply negb_true_iff. apply Hn. unfold raisable_names, handler_ranges, handler_fallback_raises. cbn [range_class map].
-      unfold in_range. destruct ((400 <=? st) && (st <? 500)); [right; right; left; reflexivity|].
-      destruct ((500 <=? st) && (st <? 600)); [right; right; right; left; reflexivity | left; reflexivity].
-Qed.
-
+(* what the collision test buys: if colliding names were referenced by name, the witness of F06e would crash *)
 Definition ms_F06e : list str := [alias_name 404].
-Theorem refuted_F06e :
-  status_ok 404 /\ guard_F06e Custom [op_F06a] ms_F06e op_F06a 404 = false /\ no_shadowing [op_F06a] ms_F06e = false
-  /\ call_ns Custom [op_F06a] ms_F06e op_F06a 404 = Crashed
-  /\ ~ C06_spec (call_ns Custom [op_F06a] ms_F06e op_F06a 404) 404
-  /\ call_ns Bundled [op_F06a] ms_F06e op_F06a 404 = Raised ClientError 404 true.
-Proof.
-  split; [unfold status_ok; lia|]. repeat (split; [vm_compute; reflexivity|]).
-  split; [|vm_compute; reflexivity]. intros (c & E & _). vm_compute in E. discriminate.
-Qed.
-Example guard_ns_nonvacuous :
-  no_shadowing [op_ok] [alias_name 410; [73;116;101;109]] = true
-  /\ call_ns Custom [op_ok] [alias_name 410; [73;116;101;109]] op_ok 404 = Raised (Alias 404) 404 true.
-Proof. split; vm_compute; reflexivity. Qed.
+Example fixed_F06e :
+  call_ns Custom [op_F06a] ms_F06e ms_F06e op_F06a 404 = Raised (Alias 404) 404 true
+  /\ exception_ref ms_F06e (Alias 404) = Qualified (alias_name 404)
+  /\ call_ns Custom [op_F06a] [] ms_F06e op_F06a 404 = Crashed.
+Proof. repeat split; vm_compute; reflexivity. Qed.
